@@ -32,6 +32,7 @@ CONSTANTS
   RM = TRUE
   Slots = 3
   RmUuids = {1, 2}
+  RmMonotone = FALSE
   Scrapes = FALSE
   HookScrapes = FALSE
   Marking = FALSE
